@@ -28,7 +28,7 @@ typedef struct { const uint8_t* buffer_; size_t size_; } IMS;
 #define IMS_READ_OBJ_CONTRACT \
   __CPROVER_requires(IMS_PRE(this)) \
   __CPROVER_requires(n <= 65535 && TINS_PRE_W(output, n)) \
-  __CPROVER_assigns(*this, __CPROVER_object_whole(output)) \
+  __CPROVER_assigns(*this, __CPROVER_object_upto(output, n)) \
   __CPROVER_ensures(IMS_ADVANCED(this, n)) \
   __CPROVER_ensures(IMS_VALID(this)) \
   __CPROVER_ensures(n >= 1 ==> ((const uint8_t*)output)[0] == __CPROVER_old(this->buffer_)[0]) \
